@@ -89,6 +89,9 @@ pub struct Verdict {
     pub site: Option<String>,
     /// number of real evaluations this case performed
     pub evals: u64,
+    /// merged breadth-first layers only: canonical key of the state the history ends in
+    /// (None: the state lies outside the layer's state constraint and is not expanded)
+    pub key: Option<String>,
 }
 
 impl Verdict {
@@ -115,6 +118,8 @@ pub struct FamilyStats {
     pub pruned: u64,
     pub exhaustive: bool,
     pub wall_s: f64,
+    /// true for a merged breadth-first layer (states = distinct merged states, transitions = edges executed)
+    pub merged: bool,
 }
 
 pub struct RunStats<C> {
@@ -151,6 +156,27 @@ impl<C> Family<C> {
     }
 }
 
+/// A merged breadth-first layer over operation histories.  A node is the shortest history (list of
+/// operation indices) that reached a state; every (state, operation) edge is executed on the real
+/// code by replaying that history from scratch plus the operation; `exec` checks the oracle along
+/// the whole history and returns the canonical key of the state reached (`Verdict::key`): model
+/// state + observational fingerprint of the implementation.  Histories whose key was seen before
+/// are not expanded again (merging can hide differences in hidden implementation state, never
+/// invent a violation); a key of None means "outside the state constraint": checked, not expanded.
+pub struct Bfs<C> {
+    pub name: String,
+    pub bounds: String,
+    pub nops: usize,
+    pub max_depth: usize,
+    pub make: Arc<dyn Fn(&[usize]) -> C + Send + Sync>,
+}
+
+impl<C> Bfs<C> {
+    pub fn new(name: &str, bounds: &str, nops: usize, max_depth: usize, make: impl Fn(&[usize]) -> C + Send + Sync + 'static) -> Bfs<C> {
+        Bfs { name: name.to_string(), bounds: bounds.to_string(), nops, max_depth, make: Arc::new(make) }
+    }
+}
+
 fn h64<T: Hash + ?Sized>(t: &T) -> u64 {
     let mut h = std::collections::hash_map::DefaultHasher::new();
     t.hash(&mut h);
@@ -183,6 +209,7 @@ pub fn threads() -> usize {
 /// (calculators are `!Send`).  `exec` runs the real code and the oracle.
 pub fn run<C, X>(
     families: Vec<Family<C>>,
+    bfs_layers: Vec<Bfs<C>>,
     limits: &Limits,
     seed: u64,
     mk_ctx: impl Fn() -> X + Sync,
@@ -211,10 +238,11 @@ where
     let outcomes: Mutex<HashSet<u64>> = Mutex::new(HashSet::new());
     let classes: Mutex<std::collections::BTreeMap<String, u64>> = Mutex::new(Default::default());
     let samples: Mutex<Vec<(u64, serde_json::Value)>> = Mutex::new(Vec::new());
-    let mut caps_hit = Vec::new();
+    let caps_hit: Mutex<Vec<String>> = Mutex::new(Vec::new());
+    let keys: Mutex<Vec<(u64, Option<String>)>> = Mutex::new(Vec::new());
     let t0 = seam::real_now();
 
-    for fam in families {
+    let run_family = |fam: Family<C>, want_keys: bool| -> FamilyStats {
         let f0 = seam::real_now();
         let _ = seed;
         let (tx, rx) = sync_channel::<Vec<(u64, C)>>(nthreads * 4);
@@ -264,6 +292,7 @@ where
                     let classes = &classes;
                     let samples = &samples;
                     let calculators = &calculators;
+                    let keys = &keys;
                     let flight = &flights[w];
                     let fam_name = fam_name.clone();
                     std::thread::Builder::new()
@@ -288,6 +317,11 @@ where
                                     flight.since.store(seam::real_now().to_bits(), Ordering::Relaxed);
                                     let v = exec(&mut ctx, case);
                                     flight.since.store(0f64.to_bits(), Ordering::Relaxed);
+                                    if want_keys {
+                                        // a violating history is never expanded
+                                        let k = if v.violation.is_some() { None } else { v.key.clone() };
+                                        keys.lock().unwrap().push((*idx, k));
+                                    }
                                     evaluations.fetch_add(v.evals.max(1), Ordering::Relaxed);
                                     let hi = h64(&v.input);
                                     l_inputs.push(hi);
@@ -398,7 +432,7 @@ where
                     prefix = t.iter().map(|(c, _)| *c).collect();
                     if limits.time_cap_s > 0.0 && (st.executions & 0x3ff) == 0 && seam::real_now() - t0 > limits.time_cap_s {
                         st.exhaustive = false;
-                        caps_hit.push(format!("time cap {}s hit in family {} after {} executions", limits.time_cap_s, fam.name, st.executions));
+                        caps_hit.lock().unwrap().push(format!("time cap {}s hit in family {} after {} executions", limits.time_cap_s, fam.name, st.executions));
                         break;
                     }
                 }
@@ -411,8 +445,96 @@ where
         });
         st.transitions = st.states.saturating_sub(1);
         st.wall_s = seam::real_now() - f0;
+        st
+    };
+
+    for fam in families {
+        fam_stats.push(run_family(fam, false));
+    }
+
+    // ---- merged breadth-first layers ----
+    for layer in bfs_layers {
+        let f0 = seam::real_now();
+        let mut st = FamilyStats { name: layer.name.clone(), mode: format!("MergedBfs(depth<={})", layer.max_depth), exhaustive: true, merged: true, ..Default::default() };
+        let mut seen: HashSet<String> = HashSet::new();
+        let mut frontier: Vec<Vec<usize>> = Vec::new();
+        let mut outside = 0u64; // states outside the state constraint (checked, not expanded)
+        let mut fixed_point = false;
+        let mut depth_done = 0usize;
+        let mut per_level: Vec<String> = Vec::new();
+        // level 0: the empty history
+        for depth in 0..=layer.max_depth {
+            let level_hist: Arc<Vec<Vec<usize>>> = if depth == 0 {
+                Arc::new(vec![Vec::new()])
+            } else {
+                let mut v = Vec::with_capacity(frontier.len() * layer.nops);
+                for h in frontier.iter() {
+                    for o in 0..layer.nops {
+                        let mut n = h.clone();
+                        n.push(o);
+                        v.push(n);
+                    }
+                }
+                Arc::new(v)
+            };
+            if level_hist.is_empty() {
+                fixed_point = true;
+                break;
+            }
+            keys.lock().unwrap().clear();
+            let lh = level_hist.clone();
+            let make = layer.make.clone();
+            let fam = Family::new(&layer.name, Mode::Full, "", move |ch| {
+                let i = ch.choose(lh.len());
+                Some(make(&lh[i]))
+            });
+            let fs = run_family(fam, true);
+            st.executions += fs.executions;
+            st.transitions += fs.executions;
+            let mut ks = std::mem::take(&mut *keys.lock().unwrap());
+            ks.sort_by_key(|(i, _)| *i);
+            let mut next = Vec::new();
+            for (i, k) in ks {
+                match k {
+                    None => outside += 1,
+                    Some(k) => {
+                        if seen.insert(k) {
+                            next.push(level_hist[i as usize].clone());
+                        }
+                    }
+                }
+            }
+            per_level.push(format!("{}:{}", depth, next.len()));
+            depth_done = depth;
+            frontier = next;
+            if !fs.exhaustive {
+                st.exhaustive = false;
+                break;
+            }
+            if limits.time_cap_s > 0.0 && seam::real_now() - t0 > limits.time_cap_s {
+                st.exhaustive = false;
+                caps_hit.lock().unwrap().push(format!("time cap {}s hit in merged layer {} after depth {}", limits.time_cap_s, layer.name, depth));
+                break;
+            }
+        }
+        if frontier.is_empty() {
+            fixed_point = true;
+        }
+        st.states = seen.len() as u64;
+        st.bounds = format!(
+            "{} -- merged breadth-first search: {} operations, {} distinct merged states, {} edges executed on the real code, new states per depth [{}], {}; {} edges led outside the state constraint or to a violation (checked, not expanded)",
+            layer.bounds,
+            layer.nops,
+            seen.len(),
+            st.transitions,
+            per_level.join(" "),
+            if fixed_point { format!("FIXED POINT: no new state after depth {} (every state reachable under the constraint was visited)", depth_done) } else { format!("stopped at depth bound {} with {} unexpanded frontier states", depth_done, frontier.len()) },
+            outside
+        );
+        st.wall_s = seam::real_now() - f0;
         fam_stats.push(st);
     }
+    let caps_hit = caps_hit.into_inner().unwrap();
 
     let mut samples = samples.into_inner().unwrap();
     samples.sort_by_key(|(i, _)| *i);
